@@ -57,7 +57,7 @@ func (c05Checker) Meta() CheckerMeta {
 
 func c05Gen(tp *Tapes) *c05Spec {
 	g := tp.Gen
-	sp := &c05Spec{Prog: GenProgram(g, 5+g.Draw(16))}
+	sp := &c05Spec{Prog: GenProgram(g, 5+g.DrawD(16, 40))}
 	sp.Loader = []string{"fs", "virt", "http", "fs", "virt", "localbase"}[g.Draw(6)]
 	np := 1 + g.Draw(3)
 	for i := 0; i < np; i++ {
@@ -68,10 +68,10 @@ func c05Gen(tp *Tapes) *c05Spec {
 	sp.SharedCtx = g.Draw(2) == 1
 	sp.strat = pickStrategy(g)
 	sp.Strat = sp.strat.String()
-	k := 2 + g.Draw(3)
+	k := 2 + g.DrawD(3, 5)
 	f := tp.Fault
 	for t := 0; t < k; t++ {
-		n := 1 + g.Draw(4)
+		n := 1 + g.DrawD(4, 8)
 		var ops []c05Op
 		for i := 0; i < n; i++ {
 			op := c05Op{Ctx: g.Draw(np), Entry: g.Draw(5)}
